@@ -7,6 +7,9 @@ claimed={
  "C04":("other","structural necessary conditions: the statistic/DoF/tail formulas and error-guard reach conditions extracted from go/ssa are algebraically identical to the textbook formulas on every path; not numerical accuracy","formula conformance by algebraic value numbering on go/ssa + reach-condition rules"),
  "C10":("other","structural necessary conditions: R8 formula, clamping decision list, weighted scan recurrence, IQR, no-mutation; not monotonicity/order independence","formula conformance (engine B) + effect analysis (A) + integer discipline (D)"),
  "C13":("other","structural necessary conditions: value of every receiver field at exit of Add/Combine equals the online/pairwise-merge formula in three regimes; derived statistics; Combine never writes its argument","field-at-exit formula conformance via reaching stores and gating functions"),
+ "C06":("other","structural necessary conditions: support decision lists, PMF/CDF/moment formulas, tail-flip identity, term-ratio recurrence, floor semantics of k; not 1e-10 accuracy","formula conformance (engine B) + D-floor"),
+ "C08":("other","structural necessary conditions: the formulas and recurrences of BetaInc/betacf, GammaInc/GammaIncComp (sibling agreement, sum to 1 symbolically), Choose/Lchoose, Sign equal the cited ones; bounded loops; not accuracy/convergence","formula and recurrence conformance (engine B), sibling agreement"),
+ "C16":("other","structural necessary conditions: Map/Unmap formulas for Linear, Log (both signs), QQ; derived symbolically Map(Min)=0, Map(Max)=1, Unmap∘Map=id, Map∘Unmap=id; NewLog decision list and error type; not floating-point monotonicity","formula conformance + symbolic composition/substitution on normal forms"),
  "C14":("other","structural necessary conditions: exactly-one-increment, guard/counter agreement by reach conditions, floor semantics of the bin index, BinToValue∘bin = id symbolically, quantile interpolation formulas","control-shape rules + D-floor + formula conformance"),
 }
 na={"C19":"dominance is a fixed point over all paths of an input graph: no clause of the statement has its truth in the shape of the code (DESIGN.md §6); needs execution against a reference, a different technique family"}
